@@ -121,11 +121,15 @@ class AbstractContainer(abstract.GeomdlBase):
 
         :getter: Gets the evaluated points of all contained geometries
         """
-        if not self._cache['evalpts']:
-            for elem in self._elements:
-                elem.delta = self._delta[0] if self._pdim == 1 else self._delta
-                evalpts = elem.evalpts
-                self._cache['evalpts'] += evalpts
+        # The elements keep their own evaluated points up-to-date (they are reset whenever an element is edited),
+        # therefore the list is always collected from the elements instead of being kept by the container
+        evalpts = []
+        delta = self._delta[0] if self._pdim == 1 else tuple(self._delta)
+        for elem in self._elements:
+            if elem.delta != delta:
+                elem.delta = delta  # resets the evaluated points of the element
+            evalpts += elem.evalpts
+        self._cache['evalpts'] = evalpts
         return self._cache['evalpts']
 
     @property
